@@ -1087,13 +1087,14 @@ def run(ctx):
 
     props = ["Props/C17.v"]
     targets = ["Props/C17.vo"]
-    if os.path.exists(os.path.join(vlib.COQ, "Props", "C17_sde.v")):
-        props.append("Props/C17_sde.v")
-        targets.append("Props/C17_sde.vo")
+    for extra in ("C17_sde", "C17_sys"):
+        if os.path.exists(os.path.join(vlib.COQ, "Props", extra + ".v")):
+            props.append("Props/%s.v" % extra)
+            targets.append("Props/%s.vo" % extra)
     proofs_ok = vlib.standard_proof_step(ctx, targets, props, search)
     if proofs_ok and not ctx.quick:
         # independent re-check of the compiled proofs and of their dependencies
-        mods = ["QV.Props.C17"] + (["QV.Props.C17_sde"] if len(props) > 1 else [])
+        mods = ["QV." + p_[:-2].replace("/", ".") for p_ in props]
         rc, out = vlib.sh(["timeout", "900", "coqchk", "-silent", "-o", "-Q", ".", "QV"] + mods,
                           timeout=930, cwd=vlib.COQ)
         ok = rc == 0 and "Axioms: <none>" in out
@@ -1285,6 +1286,7 @@ def run(ctx):
         c17_sde.correspondence(ctx, rng, dist)
         if os.path.exists(os.path.join(vlib.COQ, "Model", "C17_sys.v")):
             c17_sde.correspondence_sys(ctx, rng, dist)
+            c17_sde.correspondence_cache(ctx, rng, dist)
 
     # ---------------- round trips on real solvers (the property itself)
     combos = [(True, m) for m in ALL_SME] + [(False, m) for m in ALL_SSE]
@@ -1440,6 +1442,24 @@ def replay(ctx, payload):
             ctx.violation(payload["site"], "replay-raises-TypeError:" + ",".join(sorted(ms)),
                           "run_from_experiment raises TypeError for %s" % sorted(ms),
                           {"methods": sorted(ms), "kind": kind})
+    elif kind == "cache":
+        import c17_sde
+
+        def lit(x):
+            return np.array(eval(x, {"__builtins__": {}}), dtype=complex)
+        case = {"H": lit(d["H"]), "c": lit(d["c"]), "states": [lit(x) for x in d["states"]],
+                "ops": d["ops"]}
+        prov = c17_sde.run_cache_impl(case)
+        cur = 0
+        for i, (op, pv) in enumerate(zip(case["ops"], prov)):
+            if op[0] == "set":
+                cur = op[1]
+            elif pv != cur:
+                ctx.violation(payload["site"], payload["signature"],
+                              "accessor %s (op %d) returns a value computed from state %d, "
+                              "current is %d" % (op[1], i, pv, cur),
+                              dict(d, impl_provenance=prov))
+                break
     elif kind == "convergence":
         convergence_exploration(ctx)
     elif kind == "order":
